@@ -28,6 +28,9 @@ def quick():
     for link in (True, False, None):
         c.append(Cfg(f"two_same_axes_link{link}", (DS("ds1", T2, (0.0, 1.0), scale=True), DS("ds2", T3, (0.0, 1.0))), groups={"default": (link, VP)}))
     c.append(Cfg("two_overlap_linked_scales", (DS("ds1", T2, (0.0, 1.0), scale=True), DS("ds2", T2, (1.0, 2.0), scale=True)), groups={"default": (True, VP)}))
+    # global axes as they come: a descending (wavenumber) axis in a linked group - results go back under the dataset's own coordinates
+    c.append(Cfg("two_linked_second_descending", (DS("ds1", T2, (0.0, 1.0, 2.0), scale=True), DS("ds2", T3, (2.0, 1.0, 0.0))), groups={"default": (True, VP)}))
+    c.append(Cfg("two_linked_first_descending_dep", (DS("ds1", T2, (2.0, 1.0)), DS("ds2", T2, (1.0, 2.0, 3.0), weight=True)), megacomplexes=M1D, groups={"default": (True, VP)}))
     c.append(Cfg("two_disjoint_linked", (DS("a", T2, (0.0, 2.0)), DS("b", T2, (1.0, 3.0), scale=True)), groups={"default": (True, VP)}))
     c.append(Cfg("two_overlap_weights_one", (DS("ds1", T2, (0.0, 1.0), weight=True), DS("ds2", T3, (1.0, 2.0))), groups={"default": (True, VP)}))
     c.append(Cfg("two_labels_prefix", (DS("ds1", T2, (0.0, 1.0), scale=True), DS("ds10", T2, (1.0, 2.0), scale=True)), groups={"default": (True, VP)}))
